@@ -107,8 +107,8 @@ DRAFTS = [draft('processRequest', 0), draft('cancelledByGuards', 2), draft('canc
 
 RECS2 = dict(RECS); RECS2.update({'S_': r'^ffsm2::detail::S_<0,.*,A>$', 'S_head': r'^ffsm2::detail::S_<255,', 'CS_': r'^ffsm2::detail::CS_<0,.*,0,ffsm2::detail::TL_<A,B,C>>$', 'A_': r'^ffsm2::detail::A_<ffsm2::detail::B_<'})
 def draft2(cls, name, nparams, **kw):
-    return dict(witness=W, recs=RECS2, opaque=[r'^ffsm2::detail::PlanDataT<', r'^Ctx$', r'LoggerInterfaceT<'], id='root.draft2.'+cls[16:18].strip('<_')+'.'+name, props=['DRAFT'],
+    return dict(witness=W, recs=RECS2, opaque=[r'^ffsm2::detail::PlanDataT<', r'^Ctx$', r'LoggerInterfaceT<'], opaque_keep={'PlanDataT': ['headStatus', 'subStatus', 'planExists']}, id='root.draft2.'+cls[16:18].strip('<_')+'.'+name, props=['DRAFT'],
                 target=dict(cls=cls, name=name, nparams=nparams, **kw), consts=CONSTS, ghost=GHOST, default_call='contract', draft=True,
                 calls={'re:^(Transition|Registry__|TaskStatus|ControlT__|PlanControlT__|FullControl.*__ctor|GuardControlT__ctor|ConstControlT__|C___compo|C___headStatus|C___subStatus|op_or)': 'body'})
-DRAFTS += [draft2(r'^ffsm2::detail::C_<', 'deepPreUpdate', 1), draft2(r'^ffsm2::detail::C_<', 'deepChangeToRequested', 1), draft2(r'^ffsm2::detail::C_<', 'deepEnter', 1),
+DRAFTS += [draft2(r'^ffsm2::detail::C_<', 'deepExit', 1), draft2(r'^ffsm2::detail::C_<', 'deepUpdatePlans', 1), draft2(r'^ffsm2::detail::C_<', 'deepEntryGuard', 1), draft2(r'^ffsm2::detail::C_<', 'deepQuery', 2), draft2(r'^ffsm2::detail::C_<', 'deepPreUpdate', 1), draft2(r'^ffsm2::detail::C_<', 'deepChangeToRequested', 1), draft2(r'^ffsm2::detail::C_<', 'deepEnter', 1),
            draft2(r'^ffsm2::detail::S_<0,.*,A>$', 'deepPreUpdate', 1), draft2(r'^ffsm2::detail::S_<0,.*,A>$', 'deepEntryGuard', 1), draft2(r'^ffsm2::detail::S_<0,.*,A>$', 'deepPreReact', 2)]
